@@ -79,6 +79,7 @@ static struct {
   int trace_rule;
   int verbose;
   long spin_limit;
+  unsigned char no_inject[MYTH_VERIF_N_IDS];
   double spin_secs;
 } cfg;
 
@@ -93,6 +94,7 @@ static uint64_t mix64(uint64_t x) {
   return x ^ (x >> 31);
 }
 
+static void in_lock_init(void);
 static void cfg_init(void) {
   if (cfg.inited) return;
   const char * s;
@@ -129,6 +131,17 @@ static void cfg_init(void) {
       }
     }
   }
+  if ((s = getenv("MYTH_VERIF_NOINJECT")) && *s) {
+    char buf[512];
+    strncpy(buf, s, sizeof(buf) - 1); buf[sizeof(buf) - 1] = 0;
+    char * save = 0;
+    char * tok = strtok_r(buf, ",", &save);
+    while (tok) {
+      int id = myth_verif_id_of(tok);
+      if (id >= 0 && id < MYTH_VERIF_N_IDS) cfg.no_inject[id] = 1;
+      tok = strtok_r(0, ",", &save);
+    }
+  }
   if ((s = getenv("MYTH_VERIF_TARGET_P")) && *s) cfg.target_p = atoi(s);
   if ((s = getenv("MYTH_VERIF_TARGET_US")) && *s) cfg.target_us_max = atoi(s);
   if ((s = getenv("MYTH_VERIF_SLEEP_BUDGET_US")) && *s) cfg.sleep_budget_us = atol(s);
@@ -139,6 +152,7 @@ static void cfg_init(void) {
   if ((s = getenv("MYTH_VERIF_VERBOSE")) && *s) cfg.verbose = atoi(s);
   if ((s = getenv("MYTH_VERIF_SPIN_LIMIT")) && *s) cfg.spin_limit = atol(s);
   if ((s = getenv("MYTH_VERIF_SPIN_SECS")) && *s) cfg.spin_secs = atof(s);
+  in_lock_init();
   cfg.inited = 1;
 }
 
@@ -297,7 +311,26 @@ static void do_sleep(vt_t * t, unsigned us) {
   myth_verif_real_usleep(us);
 }
 
+/* Points that sit inside a spin-lock critical section which some party re-enters in a retry loop
+   (try-join / timed-join polling, wake-up retry, idle workers' steal attempts, key allocator):
+   the delay injected there must keep the CPU.  A holder that gives up its time slice inside the lock
+   (sched_yield / nanosleep) and re-takes the lock a microsecond after releasing it starves a spinning
+   waiter for tens of seconds on a loaded machine - observed as a 60 s stall of a finishing thread on
+   its own record lock against a timed-join poller (unchanged library): a schedule the real code
+   cannot produce, because it never sleeps inside these sections. */
+static unsigned char g_in_lock[MYTH_VERIF_N_IDS];
+static void in_lock_init(void) {
+  static const char * const names[] = {
+    "TRYJOIN_LOCKED", "JOIN_LOCKED", "DETACH_LOCKED", "FIN_LOCKED", "SQ_ENQ_LOCKED", "SQ_DEQ_LOCKED",
+    "Q_POP_SLOW_LOCKED", "Q_TAKE_LOCKED", "Q_TAKE_AFTER_INC", "Q_TAKE_AFTER_FENCE", "Q_TAKE_BEFORE_ROLLBACK",
+    "Q_PUT_LOCKED", "Q_PASS_LOCKED", "WSAPI_TAKE_AFTER_INC", "WSAPI_TAKE_AFTER_FENCE", "WSAPI_PEEK_AFTER_INC",
+    "KEY_ALLOC_BEFORE_CAS", "KEY_DEALLOC_BEFORE_CAS", 0 };
+  int i;
+  for (i = 0; names[i]; i++) { int id = myth_verif_id_of(names[i]); if (id >= 0 && id < MYTH_VERIF_N_IDS) g_in_lock[id] = 1; }
+}
+
 static void inject(vt_t * t, int id) {
+  int in_lock = g_in_lock[id];
   switch (cfg.profile) {
   case PROF_CALM:
     return;
@@ -307,9 +340,9 @@ static void inject(vt_t * t, int id) {
     if ((r & 63) < lvl) {
       spin_cycles(10 + (unsigned)((r >> 8) % 3000));
     } else if (((r >> 6) & 255) < lvl) {
-      myth_verif_real_yield();
+      if (in_lock) spin_cycles(2000 + (unsigned)((r >> 28) % 6000)); else myth_verif_real_yield();
     } else if (((r >> 14) & 4095) < lvl) {
-      do_sleep(t, 20 + (unsigned)((r >> 28) % 200));
+      if (in_lock) spin_cycles(20000 + (unsigned)((r >> 28) % 60000)); else do_sleep(t, 20 + (unsigned)((r >> 28) % 200));
     }
     return;
   }
@@ -318,7 +351,7 @@ static void inject(vt_t * t, int id) {
     uint64_t r = rnd(t);
     if ((int)(r & 255) < cfg.target_p) {
       unsigned us = 20 + (unsigned)((r >> 8) % (unsigned)cfg.target_us_max);
-      if ((r >> 40) & 1) do_sleep(t, us); else spin_cycles(us * 40);
+      if (((r >> 40) & 1) && !in_lock) do_sleep(t, us); else spin_cycles(us * 40);
     }
     return;
   }
@@ -346,7 +379,7 @@ void myth_verif_point(int id) {
       g_pairs[prev & 0xffff][id] = 1;
     }
   }
-  if (cfg.profile != PROF_CALM) inject(t, id);
+  if (cfg.profile != PROF_CALM && !cfg.no_inject[id]) inject(t, id);
 }
 
 void myth_verif_cov(int id) {
